@@ -12,14 +12,15 @@
 (* expected index arrays and replayed by harness/props/c14.py (G).         *)
 (* Curves: a fixed list of height profiles per grid (staircases, plateaus, *)
 (* tent, zigzag, noisy, increasing, ranges 1..4) and, with Stairs = TRUE,  *)
-(* all 70 monotone unit-step staircases 4 -> 0 and their mirror images.    *)
+(* all 70 monotone unit-step staircases 4 -> 0 and their mirror images     *)
+(* (those with <= 3 retained points / <= 2 marker knees).                  *)
 (***************************************************************************)
 EXTENDS Filters, TLC, Json
 
 CONSTANTS Grids,      \* subset of {8, 16}: n - 1
           MaxRet,     \* reductions with 2..MaxRet retained points
           MaxRet16,   \* the same bound on the 16-grid
-          MaxKnees,   \* markers variant: 1..MaxKnees knees
+          MaxKnees,   \* markers variant: 1..MaxKnees knees (one fewer on the 16-grid)
           Stairs,     \* TRUE: add the staircase family on the 8-grid
           Emit
 
@@ -34,17 +35,20 @@ Profiles16 == { <<4,4,4,3,3,3,2,2,2,2,1,1,1,1,0,0,0>>, <<4,3,2,2,1,1,1,0,0,0,0,0
                 <<4,2,3,1,2,0,1,0,2,1,3,0,0,1,0,2,1>>, <<0,0,0,0,0,0,0,0,1,1,1,2,2,3,3,4,4>> }
 StairSet == LET down == {[i \in 1..9 |-> 4 - Cardinality({d \in D : d < i})] : D \in kSubset(4, 1..8)}
             IN down \cup {[i \in 1..9 |-> h[10 - i]] : h \in down}
-Profiles(g) == IF g = 8 THEN Profiles8 \cup (IF Stairs THEN StairSet ELSE {}) ELSE Profiles16
 CurveOf(h) == [i \in 1..Len(h) |-> <<i - 1, h[i]>>]
-Reductions(g) == {SortedSeqOf({0, g} \cup T) :
-                    T \in UNION {kSubset(j, 1..(g-1)) : j \in 0..((IF g = 8 THEN MaxRet ELSE MaxRet16) - 2)}}
-KneeSets(g) == UNION {kSubset(j, 0..g) : j \in 1..MaxKnees}
+\* families: <<profiles, bound on retained points, bound on marker knees>>
+Families(g) == IF g = 8 THEN {<<Profiles8, MaxRet, MaxKnees>>} \cup (IF Stairs THEN {<<StairSet \ Profiles8, 3, 2>>} ELSE {})
+               ELSE {<<Profiles16, MaxRet16, MaxKnees - 1>>}
+Reductions(g, r) == {SortedSeqOf({0, g} \cup T) : T \in UNION {kSubset(j, 1..(g-1)) : j \in 0..(r - 2)}}
+KneeSets(g, m) == UNION {kSubset(j, 0..g) : j \in 1..m}
 
-Cases ==
-    UNION { UNION { {[kind |-> "reduced", pts |-> CurveOf(h), reduced |-> S, kpos |-> SortedSeqOf(kp)] :
-                        h \in Profiles(g), kp \in SUBSET (0..(Len(S) - 1))} : S \in Reductions(g) } : g \in Grids }
-    \cup UNION { {[kind |-> "markers", pts |-> CurveOf(h), knees |-> SortedSeqOf(ks)] :
-                h \in Profiles(g), ks \in KneeSets(g)} : g \in Grids }
+\* tight nested choice (no big set of records is ever built or filtered)
+InitCase(x) ==
+    \E g \in Grids : \E fam \in Families(g) : \E h \in fam[1] :
+        \/ \E S \in Reductions(g, fam[2]) : \E kp \in SUBSET (0..(Len(S) - 1)) :
+              x = [kind |-> "reduced", pts |-> CurveOf(h), reduced |-> S, kpos |-> SortedSeqOf(kp)]
+        \/ \E ks \in KneeSets(g, fam[3]) :
+              x = [kind |-> "markers", pts |-> CurveOf(h), knees |-> SortedSeqOf(ks)]
 
 TX == <<Q(1, 16), Q(1, 8), Q(1, 4)>>
 TY == <<Q(1, 8), Q(1, 4), Q(1, 2)>>
@@ -58,7 +62,7 @@ Combo(x, s) ==
         segs |-> SetToSeq(segs), exp |-> RunMin(HeightsOf(x.pts), u)]
 Combos(x) == LET ss == SetToSeq(Settings) IN [j \in 1..Len(ss) |-> Combo(x, ss[j])]
 
-Init == c \in Cases /\ out = <<>> /\ pc = "compute"
+Init == InitCase(c) /\ out = <<>> /\ pc = "compute"
 Compute == /\ pc = "compute"
            /\ out' = Combos(c) /\ pc' = "emit"
            /\ UNCHANGED c
